@@ -6,6 +6,7 @@ import (
 	"fmt"
 	"io"
 	"runtime"
+	"strings"
 	"sync"
 	"sync/atomic"
 	"testing"
@@ -89,6 +90,74 @@ func (c07AuthPush) GetClientConfig(conn ControlConnectionInterface) (string, err
 	return `{"mappings":[{"mapping_id":"m1","local_port":8080}]}`, nil
 }
 
+// c07MarkedEvictor only marks the goroutine of an operation in goroutine dumps.
+//
+//go:noinline
+func c07MarkedEvictor(f func()) { f() }
+
+// c07RunParked runs f in a goroutine. Outcome "returned": f returned. Outcome "parked": the
+// goroutine is blocked (not running/runnable) in identical frames in 3 consecutive dumps
+// 100 ms apart while endpoints() — the harness-side state that could unblock it — did not
+// change: a state that cannot change without external input. Outcome "watchdog": neither
+// within 60 s (inconclusive). where = the parked goroutine's leading frames.
+func c07RunParked(f func(), endpoints func() string) (outcome string, done chan struct{}, where string) {
+	done = make(chan struct{})
+	go func() {
+		defer close(done)
+		c07MarkedEvictor(f)
+	}()
+	// fast path
+	for i := 0; i < 40; i++ {
+		select {
+		case <-done:
+			return "returned", done, ""
+		case <-time.After(250 * time.Microsecond):
+		}
+	}
+	last, same := "", 0
+	for i := 0; i < 600; i++ {
+		select {
+		case <-done:
+			return "returned", done, ""
+		case <-time.After(100 * time.Millisecond):
+		}
+		sig := ""
+		for _, g := range vk.Goroutines() {
+			if !strings.Contains(g.Stack, "c07MarkedEvictor") {
+				continue
+			}
+			if strings.HasPrefix(g.State, "running") || strings.HasPrefix(g.State, "runnable") {
+				sig = ""
+				break
+			}
+			var fr []string
+			for _, l := range strings.Split(g.Stack, "\n") {
+				if strings.HasPrefix(l, "tunnox-core/") || strings.HasPrefix(l, "sync.") || strings.HasPrefix(l, "internal/sync.") {
+					fr = append(fr, strings.SplitN(l, "(0x", 2)[0])
+				}
+				if len(fr) >= 8 {
+					break
+				}
+			}
+			st := g.State
+			if i := strings.Index(st, ","); i >= 0 {
+				st = st[:i] // drop "N minutes"
+			}
+			sig = st + " | " + strings.Join(fr, " < ") + " | " + endpoints()
+		}
+		if sig != "" && sig == last {
+			same++
+			if same >= 2 {
+				return "parked", done, sig
+			}
+		} else {
+			same = 0
+		}
+		last = sig
+	}
+	return "watchdog", done, last
+}
+
 // c07Until spins (yielding) until cond holds; false = watchdog.
 func c07Until(cond func() bool) bool {
 	deadline := time.Now().Add(10 * time.Second)
@@ -163,22 +232,61 @@ func TestVerifC07RegistryStalledPeer(t *testing.T) {
 			continue
 		}
 		closesBefore := tr.closes.Load()
-		switch ev {
-		case "duplicate-login":
-			c2 := w.accept(1)
-			if c2 == nil {
+		var c2 *c07Conn
+		if ev == "duplicate-login" {
+			if c2 = w.accept(1); c2 == nil {
 				t.Fatalf("c07 stall: accept c2")
 			}
-			_ = w.handshake(c2, a, "ok", "control")
-		case "sweep":
-			c07SetLastActive(k, time.Now().Add(-3*time.Hour))
-			sm.cleanupStaleConnections()
-		case "apiclose":
-			_ = sm.CloseConnection(id)
 		}
+		// the eviction runs in its own goroutine: if it parks for good behind the stalled peer
+		// (same frames in consecutive goroutine dumps while the transport's blocked writer and parked
+		// reader do not move and nobody closed the transport) that is a terminal state, judged below
+		outcome, evDone, where := c07RunParked(func() {
+			switch ev {
+			case "duplicate-login":
+				_ = w.handshake(c2, a, "ok", "control")
+			case "sweep":
+				c07SetLastActive(k, time.Now().Add(-3*time.Hour))
+				sm.cleanupStaleConnections()
+			case "apiclose":
+				_ = sm.CloseConnection(id)
+			}
+		}, func() string {
+			return fmt.Sprint(tr.inWrite.Load(), tr.inRead.Load(), tr.closes.Load())
+		})
 		run.Count("evictions_with_blocked_write", 1)
+		detail := map[string]any{"round": rd, "evictor": ev, "writers_blocked": tr.inWrite.Load(), "readers_parked": tr.inRead.Load(), "eviction": outcome}
+		if outcome == "watchdog" {
+			run.Count("watchdog_eviction", 1)
+			tr.Close()
+			<-evDone
+			w.dispose()
+			continue
+		}
+		if outcome == "parked" {
+			// terminal: the old peer never reads again, the eviction never finishes. What the
+			// statement requires of this state: the evicted connection's transport is closed and a
+			// lookup of the client returns nothing or a live connection of that client.
+			detail["eviction_parked_in"] = where
+			run.Count("evictions_parked_behind_stalled_peer", 1)
+			if sm.GetControlConnection(id) == nil && tr.closes.Load() == closesBefore {
+				run.Violation("C07:evicted-conn-transport-not-closed|stalled-peer|eviction-parked|evictor="+ev, detail)
+			} else {
+				run.Violation("C07:eviction-never-completes|stalled-peer|evictor="+ev, detail)
+			}
+			tr.Close() // let everything finish; nothing more is judged in this round
+			select {
+			case <-evDone:
+			case <-time.After(20 * time.Second):
+				run.Count("watchdog_release", 1)
+			}
+			w.dispose()
+			if run.Counter("evictions_parked_behind_stalled_peer") >= 6 {
+				break // each parked round costs ~0.3 s of dumps; the class is established
+			}
+			continue
+		}
 		// --- oracle (the eviction call has returned) ---
-		detail := map[string]any{"round": rd, "evictor": ev, "writers_blocked": tr.inWrite.Load(), "readers_parked": tr.inRead.Load()}
 		if cur := sm.GetControlConnection(id); cur != nil {
 			run.Violation("C07:dead-conn-returned|lookup=GetControlConnection|stalled-peer|evictor="+ev, detail)
 		}
